@@ -1,7 +1,7 @@
 # C19 — suspending and resuming pools or workers never loses work (structural part; DESIGN.md §5 C19)
 import re
 from engine.core import AnalysisBroken, P, T, callee_of, callee_short, cond_atoms, loc_of, strip, forward, block_path, walk
-from engine.kinds import LockFlow, FactFlow, precedes_on_all_paths, always_followed_by, reaching_init
+from engine.kinds import LockFlow, FactFlow, precedes_on_all_paths, always_followed_by, reaching_init, reaching_defs
 from .common import facts, lib, local_init
 
 EXPLANATION = (
@@ -259,6 +259,65 @@ def run(rep, tier):
                             "the PU to pre_sleep in between, the worker finds its queue empty and sleeps, and the task is pushed behind it" % (member, T(e_)[:80]))
                 elif sel_calls:
                     rep.ok("C19.R4", fn, "the PU mutex taken by select_active_pu is held at all %d enqueue sites" % len(enq))
+                # ... and the queue it enqueues on is the one of the worker select_active_pu returned: every index in the
+                # receiver (queues_[i], high_priority_queues_[n]) is computed from the returned value, not from the hint as
+                # it was before the redirect
+                selw = [(b_, i_, e_) for b_, i_, e_ in fn.all_events() if e_.get("k") in ("write", "decl") and
+                        "select_active_pu(" in T(e_.get("rhs") if e_.get("k") == "write" else e_.get("init"))]
+                # (shared_priority_queue_scheduler is not held to this: its workers take work from every queue of the pool in the
+                # scheduler's own default mode, so which queue a task sits on does not decide who runs it; schedule_work's
+                # hint-none case does keep the indices it computed before the redirect - noted in DESIGN.md, not claimed)
+                if selw and sched != "shared_priority_queue_scheduler":
+                    selvars = set(P(e_["lhs"]) if e_.get("k") == "write" else e_.get("var") for _, _, e_ in selw)
+                    selpos = set((b_, i_) for b_, i_, _ in selw)
+                    is_sel = lambda e: e.get("k") == "call" and callee_short(e) == "select_active_pu"
+                    idre = re.compile(r"[A-Za-z_]\w*")
+
+                    def stale_src(name, pos, depth=0):
+                        """a definition of local `name` reaching pos that was computed from the hint before the redirect"""
+                        if depth > 6:
+                            return None
+                        for d in sorted(reaching_defs(fn, name, pos)):
+                            if d in selpos:
+                                continue
+                            de = fn.blocks[d[0]].events[d[1]]
+                            tree = de.get("init") if de.get("k") == "decl" else de.get("rhs")
+                            txt = T(tree) if tree is not None else ""
+                            if de.get("k") == "write" and de.get("op") != "=":
+                                txt += " " + name
+                            ids = set(idre.findall(txt))
+                            after = precedes_on_all_paths(fn, is_sel, d, eh=False)
+                            if not after:
+                                if name in selvars or (ids & selvars):
+                                    return d
+                                for v in ids - {name}:
+                                    if reaching_defs(fn, v, d) and stale_src(v, d, depth + 1) is not None:
+                                        return d
+                            else:
+                                for v in ids - selvars - {name}:
+                                    if reaching_defs(fn, v, d):
+                                        r_ = stale_src(v, d, depth + 1)
+                                        if r_ is not None:
+                                            return r_
+                        return None
+                    nidx = 0
+                    for b_, i_, e_ in enq:
+                        if (b_, i_) in [(x, y) for x, y, _ in missing]:
+                            continue
+                        for ix in re.findall(r"\[([^\]]+)\]", T(e_["recv"])):
+                            for v in set(idre.findall(ix)):
+                                if not reaching_defs(fn, v, (b_, i_)):
+                                    continue
+                                nidx += 1
+                                d = stale_src(v, (b_, i_))
+                                if d is not None:
+                                    rep.bad("C19.R4", fn, loc_of(e_), "enqueue-index-from-hint:" + v, "%s enqueues on %s, and '%s' is computed (%s) from the hinted worker as it was before "
+                                            "select_active_pu redirected it: the task is queued on the queue of the hinted worker even when that worker is suspended, and on a "
+                                            "scheduler that does not steal it runs only after the worker is resumed" % (member, T(e_["recv"])[:80], v, loc_of(fn.blocks[d[0]].events[d[1]])))
+                                else:
+                                    rep.ok("C19.R4", fn, "index '%s' of the enqueue at %s is computed from the worker select_active_pu returned" % (v, loc_of(e_)))
+                    if sched == "local_priority_queue_scheduler" and nidx < 2:
+                        raise AnalysisBroken("%s: indexed enqueue sites not recognised (%d)" % (fn.full, nidx))
                 if missing:
                     b, i, ev = missing[0]
                     rep.bad("C19.R4", fn, loc_of(ev), "enqueue-without-select", "%s reaches %s without select_active_pu: work can be queued on a suspended worker"
